@@ -285,6 +285,79 @@ def aberration(check, prog, canon):
                       'aberration result differs from MieLens' % missing)
 
 
+def lens_prefactor_form(check, prog):
+    """V8: the pupil integrand of the numerical lens theory, written out:
+        (1 / 2 pi) * exp(i k rho sin(th) cos(phi' - phi)) * exp(i k z (1 - cos(th)))
+                   * sqrt(cos(th)) * sin(th) * w_phi * w_th
+    (the 1 / 2 pi turns the azimuthal sum into the average that MieLens performs in
+    closed form as Bessel functions).  Both evaluation branches."""
+    q = LENS + '._integrand_prefactor'
+    fd = prog.func(q)
+    loc = prog.loc(q, fd)
+    me = sym('self')
+    env = {'krho_p': sym('krho_p'), 'phi_p': sym('phi_p'), 'kz_p': sym('kz_p'),
+           'st': intern(('attr', me, '_sintheta')), 'ct': intern(('attr', me, '_costheta')),
+           'pts': intern(('attr', me, '_phi_pts')), 'wp': intern(('attr', me, '_phi_wts')),
+           'wt': intern(('attr', me, '_theta_wts'))}
+    want = expr_term(prog, 'np.exp(1j * krho_p * st * np.cos(pts - phi_p)) * '
+                           'np.exp(1j * kz_p * (1 - ct)) * np.sqrt(ct) * st * wp * wt'
+                           ' * 0.5 / np.pi', env)
+    canon = Canon()
+    for use_ne in (True, False):
+        def decide(t, use_ne=use_ne):
+            if t == intern(('attr', me, 'use_numexpr')):
+                return use_ne
+            return None
+        it = Interp(prog, max_depth=2, decide=decide)
+        ret = it.analyze(q).ret
+        check.require(canon.equal(ret, want), 'V8-lens-prefactor-form',
+                      'Lens._integrand_prefactor [%s]' % ('numexpr' if use_ne else 'numpy'),
+                      'equals the documented pupil integrand including the 1 / 2 pi of '
+                      'the azimuthal average', loc,
+                      fail_detail='prefactor is %s; documented: %s' % (
+                          canon.show(ret)[:160], canon.show(want)[:160]))
+
+
+def mielens_inputs(check, prog):
+    """V9: the closed-form lens theory is evaluated for the same sphere as the
+    Lorenz-Mie theory inside the numerical one: relative index n / n_medium and
+    size parameter k r, at the height of the detector plane (the mean of the
+    points' k z, after the refusal of a non-planar detector)."""
+    q = 'holopy.scattering.theory.mielens.MieLens.raw_fields'
+    fd = prog.func(q)
+    loc = prog.loc(q, fd)
+    it = Interp(prog, max_depth=2, opaque=[
+        'holopy.scattering.theory.mielens.MieLens._create_calculator'])
+    it.analyze(q)
+    cs = [c for c in it.calls if c['name'].split('.')[-1] == '_create_calculator']
+    if len(cs) != 1:
+        check.bad('V9-mielens-inputs', 'MieLens.raw_fields',
+                  'no single call of _create_calculator', loc)
+        return
+    kws = dict(cs[0]['kwargs'])
+    sc, k, nm = sym('scatterer'), sym('medium_wavevec'), sym('medium_index')
+    canon = Canon()
+    want = {'index_ratio': intern(('bin', '/', ('attr', sc, 'n'), nm)),
+            'size_parameter': intern(('bin', '*', k, ('attr', sc, 'r')))}
+    for name, w in want.items():
+        got = kws.get(name)
+        check.require(got is not None and canon.equal(got, w), 'V9-mielens-inputs',
+                      'MieLens.raw_fields ' + name,
+                      'the calculator receives %s' % canon.show(w), loc,
+                      fail_detail='receives %s' % (canon.show(got)[:100] if got else None))
+    z = intern(('idx', sym('positions'), num(2)))
+    got = kws.get('particle_kz')
+    ok = got is not None and got[0] == 'call' and got[1] in ('numpy.mean',) and \
+        got[2] == (z,)
+    if not ok and got is not None and got[0] == 'call' and isinstance(got[1], tuple) \
+            and got[1] == ('attr', z, 'mean') and not got[2]:
+        ok = True
+    check.require(ok, 'V9-mielens-inputs', 'MieLens.raw_fields particle_kz',
+                  'the height handed to the calculator is the mean of the points\' '
+                  'k z (third row of the positions)', loc,
+                  fail_detail='receives %s' % (show(got)[:100] if got else None))
+
+
 def lens_nodes(check, prog):
     """The pupil integral runs over both angles, and the wrapped theory's matrix
     depends on both for anything but a sphere: the positions it is asked at must
@@ -374,6 +447,8 @@ def quadrature(check, prog, canon):
     fd = prog.func(q)
     loc = prog.loc(q, fd)
     lens_nodes(check, prog)
+    lens_prefactor_form(check, prog)
+    mielens_inputs(check, prog)
     it = Interp(prog, max_depth=1, inline_new=False)
     res = it.analyze(q)
     mg = [c for c in it.calls if c['name'] == 'numpy.meshgrid']
